@@ -15,5 +15,5 @@ coq_makefile -f _CoqProject -o Makefile
 timeout 7000 make -j16 > /verif/_build/make.log 2>&1 || { tail -50 /verif/_build/make.log; echo "setup: Coq build failed"; exit 1; }
 /verif/tools/build_driver.sh
 cp /repo/go.sum /verif/harness/go.sum
-(cd /verif/harness && go build -tags verif -o /verif/_build/bin/harness . && go build -race -tags verif -o /verif/_build/bin/harness_race .)
+(cd /verif/harness && go build -tags verif -o /verif/_build/bin/harness . && go build -race -tags verif -o /verif/_build/bin/harness_race . && (GOARCH=386 CGO_ENABLED=0 go build -tags verif -o /verif/_build/bin/harness_386 . || true))
 echo "setup: ok"
